@@ -65,12 +65,12 @@ Print Assumptions obj_rt.
 
 (* hypotheses are satisfiable *)
 Example ex_ordinary :
-  let di := {| di_meta := Some (5, 0)%N; di_xref := Some (9, 0)%N; di_containers := [(7, 0)%N]; di_members := [(3, 0)%N] |} in
+  let di := {| di_meta := Some (5, 0)%N; di_xref := Some (9, 0)%N; di_containers := [(7, 0)%N]; di_members := [(3, 0)%N]; di_identity := [(8, 0)%N] |} in
   ordinary di (6, 0)%N = true /\ kind_of di (6, 0)%N ShMetadataXML = KDirect /\ kind_of di (5, 0)%N ShPlain = KMetadata.
 Proof. repeat split. Qed.
 Example ex_obj_ok :
   let c := {| c_aes := false; c_R := 3; c_kb := 16; c_fkey := [1; 2; 3]%N; c_plain_meta := true;
-              c_doc := {| di_meta := None; di_xref := None; di_containers := []; di_members := [] |} |} in
+              c_doc := {| di_meta := None; di_xref := None; di_containers := []; di_members := []; di_identity := [] |} |} in
   obj_ok c [[]] [] {| o_ref := (6, 0)%N; o_shape := ShMetadataXML; o_strings := [[65; 66]%N]; o_stream := Some [[1]%N; [2]%N] |}.
 Proof. split; [constructor; [intros H; discriminate H|constructor]|intros H; discriminate H]. Qed.
 
